@@ -2,10 +2,10 @@
 Lemmas/InlineSound.lean — `_inline_calls_in` (`inlG` / `inlNodes` / `inlBodies`) preserves the denotation:
 the original environment is the new environment read through the replacements made so far (`RelN`),
 for the values of the original model (ids below `N`).  The processing of the inserted nodes (`deeper`) is
-a parameter; here it is required to leave an instantiated body as it is (`DeepId`: function bodies without
-calls).
+a parameter: it has to simulate the inserted node list in the same sense (`DeepOK`); `inlNodes_sound` itself
+shows that for `inlAt` by induction over the unrolling budget (Lemmas/InlineTop.lean).
 -/
-import IrVerif.Lemmas.InlineCall
+import IrVerif.Lemmas.InlineWF
 import IrVerif.Lemmas.SemIdentity
 namespace IrVerif.Inline
 open IrVerif.Sem IrVerif.Passes
@@ -35,48 +35,80 @@ theorem RelN.args {N : Nat} {σ : Subst} {ρo ρi : Env Val} (h : RelN N σ ρo 
     simp only [Function.comp, Option.map, Option.bind]
     exact h v (hins v (by simp [List.mem_filterMap]; exact ho))
 
-theorem evalNodesF_append (I : Interp Val) (Φ : FEnv Val) (α : List (String × AttrData)) :
-    ∀ (a b : List FNode) (ρ : Env Val), evalNodesF I Φ α (a ++ b) ρ = evalNodesF I Φ α b (evalNodesF I Φ α a ρ)
-  | [], _, _ => by simp [evalNodesF]
-  | n :: a, b, ρ => by simp [evalNodesF, evalNodesF_append I Φ α a b]
-
 /-- what a call site needs of the function table -/
 structure TblOK (I : Interp Val) (Φ : FEnv Val) (tbl : List Func) : Prop where
   den : ∀ op f, findFunc tbl op = some f → Φ op = some (funcDen I Φ f)
   nostoch : ∀ op f, findFunc tbl op = some f → opsAllNodes (fun op => !isStochasticOp op) f.nodes = true
   subinits : ∀ op f, findFunc tbl op = some f → subInitsOKNodes f.nodes = true
-  closed : ∀ op f, findFunc tbl op = some f → closedG (eraseG f.graph) = true
+  closed : ∀ op f, findFunc tbl op = some f → closedNodes (eraseNodes f.nodes) = true
+  calls : ∀ op f, findFunc tbl op = some f → callsOKNodes tbl f.nodes = true
+  noident : findFunc tbl identityOp = none
+  noidentΦ : Φ identityOp = none
 
-/-- `deeper` leaves an instantiated body as it is -/
-def DeepId (tbl : List Func) (crit : OpId → Bool) (deeper : Deeper) : Prop :=
-  ∀ op f cattrs cins (st : ISt), findFunc tbl op = some f → crit op = true →
-    (deeper (st.addInlined op (instantiate f cattrs cins st.next).next) (instantiate f cattrs cins st.next).nodes).2 =
-      ((instantiate f cattrs cins st.next).nodes, []) ∧
-    (deeper (st.addInlined op (instantiate f cattrs cins st.next).next) (instantiate f cattrs cins st.next).nodes).1.next =
-      (instantiate f cattrs cins st.next).next
+/-- `deeper` simulates the node list it is given: the environment after the inserted nodes is the environment
+    after the processed nodes read through the replacements made in them; these replace values of the inserted
+    nodes by values that the inserted nodes read from outside (`Q`) or that are new -/
+def DeepOK (I : Interp Val) (Φ : FEnv Val) (α : List (String × AttrData)) (tbl : List Func) (deeper : Deeper) : Prop :=
+  ∀ (Q : VId → Prop) (lo : Nat) (ns : List FNode) (st : ISt) (ρ : Env Val), WFBody tbl Q lo st.next ns →
+    RelN st.next (deeper st ns).2.2 (evalNodesF I Φ α ns ρ) (evalNodesF I Φ α (deeper st ns).2.1 ρ) ∧
+    st.next ≤ (deeper st ns).1.next ∧
+    (∀ p ∈ (deeper st ns).2.2, lo ≤ p.1 ∧ p.1 < st.next ∧ p.2 < (deeper st ns).1.next ∧ (Q p.2 ∨ lo ≤ p.2))
 
 theorem callOK_iff {f : Func} {attrs : List (String × FAttr)} {ins : List (Option VId)} {outs : List VId}
     {bodies : List FGraph} (h : callOK f attrs ins outs bodies = true) :
     (attrs.map Prod.fst).Nodup ∧ outs.length ≤ f.outputs.length ∧
-    (∀ v ∈ f.outputs, (mapV (zipPad f.inputs ins) v).isSome = true ∨ v ∉ f.inputs) ∧
     (∀ p ∈ attrs, match p.2 with
       | .val _ => True
       | .ref _ => f.params.any (fun q => q.1 == p.1 && q.2.isSome) = false) := by
-  simp only [callOK, Bool.and_eq_true, decide_eq_true_eq, List.all_eq_true, Bool.or_eq_true,
-    Bool.not_eq_true', List.contains_eq_mem, decide_eq_false_iff_not] at h
-  obtain ⟨⟨⟨⟨⟨⟨_, h1⟩, _⟩, h3⟩, h4⟩, h5⟩, _⟩ := h
-  refine ⟨h1, h3, h4, fun p hp => ?_⟩
+  simp only [callOK, Bool.and_eq_true, decide_eq_true_eq, List.all_eq_true] at h
+  obtain ⟨⟨⟨⟨_, h1⟩, _⟩, h3⟩, h5⟩ := h
+  refine ⟨h1, h3, fun p hp => ?_⟩
   have := h5 p hp
   cases hp2 : p.2 with
   | val a => trivial
   | ref q => rw [hp2] at this; simpa using this
+
+theorem length_fwdOuts (vm : VMap) : ∀ (vs produced : List VId) (next : Nat),
+    (fwdOuts vm produced vs next).outvals.length = vs.length
+  | [], _, _ => by simp [fwdOuts]
+  | v :: vs, produced, next => by
+    rw [fwdOuts]
+    split
+    · split <;> simp [length_fwdOuts vm vs]
+    · simp [length_fwdOuts vm vs]
+
+theorem Subst.app_of_not_key {σ : Subst} {v : VId} (h : ∀ p ∈ σ, p.1 ≠ v) : σ.app v = v := by
+  rcases Subst.app_cases σ v with h' | ⟨p, hp, h1, _⟩
+  · exact h'
+  · exact absurd h1 (h p hp)
+
+theorem mem_of_lookup_vid : ∀ {l : List (VId × VId)} {v u : VId}, l.lookup v = some u → (v, u) ∈ l
+  | [], _, _, h => by simp at h
+  | (k, b) :: l, v, u, h => by
+    by_cases hk : v = k
+    · subst hk
+      simp only [List.lookup_cons, beq_self_eq_true, Option.some.injEq] at h
+      subst h; simp
+    · have : (v == k) = false := by simpa using hk
+      simp only [List.lookup_cons, this] at h
+      exact List.mem_cons_of_mem _ (mem_of_lookup_vid h)
+
+theorem mem_substIns {σ : Subst} {ins : List (Option VId)} {w : VId} (h : w ∈ (substIns σ ins).filterMap id) :
+    ∃ v ∈ ins.filterMap id, w = σ.app v := by
+  simp only [substIns, List.mem_filterMap, List.mem_map, id] at h
+  obtain ⟨o, ⟨o0, ho0, rfl⟩, ho⟩ := h
+  cases o0 with
+  | none => simp at ho
+  | some v0 =>
+    simp only [Option.map_some, Option.some.injEq] at ho
+    exact ⟨v0, by simp [List.mem_filterMap]; exact ho0, ho.symm⟩
 
 section
 variable (I : Interp Val) (Φ : FEnv Val) (α : List (String × AttrData)) (tbl : List Func) (crit : OpId → Bool)
   (deeper : Deeper) (N : Nat)
 
 mutual
-theorem inlG_sound (ht : TblOK I Φ tbl) (hd : DeepId tbl crit deeper) :
+theorem inlG_sound (ht : TblOK I Φ tbl) (hd : DeepOK I Φ α tbl deeper) :
     ∀ (g : FGraph) (σ : Subst) (st : ISt) (ρo ρi : Env Val),
     RelN N σ ρo ρi → SubstOK σ (defsG (eraseG g)) → ssaG (eraseG g) = true → closedG (eraseG g) = true →
     noFwdG (eraseG g) = true → (∀ v ∈ refsG (eraseG g), v < N) → (∀ v ∈ defsG (eraseG g), v < N) →
@@ -125,7 +157,7 @@ theorem inlG_sound (ht : TblOK I Φ tbl) (hd : DeepId tbl crit deeper) :
       exact k1 v (hr v (Or.inl hv))
     · simp only [inlG]
       exact (key ρo ρi hrel).2.2.1
-theorem inlNodes_sound (ht : TblOK I Φ tbl) (hd : DeepId tbl crit deeper) :
+theorem inlNodes_sound (ht : TblOK I Φ tbl) (hd : DeepOK I Φ α tbl deeper) :
     ∀ (ns : List FNode) (σ : Subst) (outs0 : List VId) (st : ISt) (ρo ρi : Env Val),
     RelN N σ ρo ρi → SubstOK σ (defsNodes (eraseNodes ns)) → ssaNodes (eraseNodes ns) = true →
     closedNodes (eraseNodes ns) = true → noFwdNodes (eraseNodes ns) = true →
@@ -137,10 +169,12 @@ theorem inlNodes_sound (ht : TblOK I Φ tbl) (hd : DeepId tbl crit deeper) :
       outs0.map (inlNodes tbl crit deeper st σ (outs0.map σ.app) ns).σ.app ∧
     st.next ≤ (inlNodes tbl crit deeper st σ (outs0.map σ.app) ns).st.next ∧
     (∀ p ∈ (inlNodes tbl crit deeper st σ (outs0.map σ.app) ns).σ,
-      p.2 < (inlNodes tbl crit deeper st σ (outs0.map σ.app) ns).st.next)
+      p.2 < (inlNodes tbl crit deeper st σ (outs0.map σ.app) ns).st.next) ∧
+    (∀ p ∈ (inlNodes tbl crit deeper st σ (outs0.map σ.app) ns).σ, p ∈ σ ∨
+      (p.1 ∈ defsNodes (eraseNodes ns) ∧ (st.next ≤ p.2 ∨ ∃ v ∈ refsNodes (eraseNodes ns), p.2 = σ.app v)))
   | [], σ, outs0, st, ρo, ρi, hrel, _, _, _, _, _, _, _, hrg, _ => by
     simp only [inlNodes, evalNodesF]
-    exact ⟨hrel, trivial, Nat.le_refl _, hrg⟩
+    exact ⟨hrel, trivial, Nat.le_refl _, hrg, fun p hp => Or.inl hp⟩
   | .mk op attrs ins nouts bodies :: ns, σ, outs0, st, ρo, ρi, hrel, hok, hs, hc, hf, hr, hdf, hN, hrg, hco => by
     simp only [eraseNodes_cons, eraseN, ssaNodes, ssaN, Bool.and_eq_true, disj_iff] at hs
     simp only [eraseNodes_cons, eraseN, closedNodes, closedN, Bool.and_eq_true] at hc
@@ -169,110 +203,148 @@ theorem inlNodes_sound (ht : TblOK I Φ tbl) (hd : DeepId tbl crit deeper) :
         · simp [h] at hsel
       have hff : findFunc tbl op = some f := by simpa [hcrit] using hsel
       rw [hff] at hco
-      obtain ⟨hnd, hlen, hpass, href⟩ := callOK_iff hco.1.1
+      obtain ⟨hnd, hlen, href⟩ := callOK_iff hco.1.1
       have hins' : ∀ v ∈ (substIns σ ins).filterMap id, v < st.next := by
         intro v hv
-        simp only [substIns, List.mem_filterMap, List.mem_map, id] at hv
-        obtain ⟨o, ⟨o0, ho0, rfl⟩, ho⟩ := hv
-        cases o0 with
-        | none => simp at ho
-        | some v0 =>
-          simp only [Option.map_some, Option.some.injEq] at ho
-          subst ho
-          rcases Subst.app_cases σ v0 with h | ⟨p, hp, _, h2⟩
-          · rw [h]
-            exact Nat.lt_of_lt_of_le (hinsN v0 (by simp [List.mem_filterMap]; exact ho0)) hN
-          · rw [← h2]; exact hrg p hp
-      have hpre : CallPre f (substIns σ ins) :=
-        ⟨ht.nostoch op f hff, ht.subinits op f hff, ht.closed op f hff, fun v hv => by
-          rcases hpass v hv with h | h
-          · left; rw [zipPad_isSome_subst]; exact h
-          · exact Or.inr h⟩
-      obtain ⟨is1, is2, is3, is4⟩ := instantiate_sound I Φ α f attrs (substIns σ ins) st.next ρi hpre hnd href hins'
-      obtain ⟨hd1, hd2⟩ := hd op f attrs (substIns σ ins) st hff hcrit
-      have hlen' : nouts.length ≤ (instantiate f attrs (substIns σ ins) st.next).outvals.length := by
-        simp only [instantiate, List.length_map]; exact hlen
-      -- abbreviations are not introduced: rewrite the `deeper` result first
-      rw [hd1]
-      simp only [List.map_id', Subst.app_nil, show (fun v => Subst.app [] v) = id from funext Subst.app_nil,
-        List.map_id]
+        obtain ⟨v0, hv0, rfl⟩ := mem_substIns hv
+        rcases Subst.app_cases σ v0 with h | ⟨p, hp, _, h2⟩
+        · rw [h]; exact Nat.lt_of_lt_of_le (hinsN v0 hv0) hN
+        · rw [← h2]; exact hrg p hp
+      -- an image of an input of the call is not bound by a later node
+      have hcin : ∀ w ∈ (substIns σ ins).filterMap id, w ∉ defsNodes (eraseNodes ns) := by
+        intro w hw h
+        obtain ⟨v0, hv0, rfl⟩ := mem_substIns hw
+        have hv0' : v0 ∉ defsNodes (eraseNodes ns) := fun h' =>
+          hfw v0 hv0 (by simp only [defsNodes, defsN, List.mem_append]; exact Or.inr h')
+        exact hokn.app_not_mem hv0' h
+      have hpre : CallPre f := ⟨ht.nostoch op f hff, ht.subinits op f hff, ht.closed op f hff⟩
+      obtain ⟨inst, hinst⟩ : ∃ x, x = instantiate f attrs (substIns σ ins) st.next := ⟨_, rfl⟩
+      obtain ⟨is1, is2, is3, is4⟩ := instantiate_sound I Φ α ht.noidentΦ f attrs (substIns σ ins) st.next ρi hpre hnd
+        href hins'
+      have hwf := instantiate_wf tbl ht.noident f (ht.closed op f hff) (ht.calls op f hff) attrs (substIns σ ins) st.next
+        hins'
+      rw [← hinst] at is1 is2 is3 is4 hwf ⊢
+      obtain ⟨dd, hdd⟩ : ∃ x, x = deeper (st.addInlined op inst.next inst.bad) inst.nodes := ⟨_, rfl⟩
+      have hdst : (st.addInlined op inst.next inst.bad).next = inst.next := rfl
+      obtain ⟨d1, d2, d3⟩ := hd (· ∈ (substIns σ ins).filterMap id) st.next inst.nodes
+        (st.addInlined op inst.next inst.bad) ρi (by rw [hdst]; exact hwf)
+      rw [← hdd] at d1 d2 d3 ⊢
+      rw [hdst] at d1 d2 d3
+      have hlen' : nouts.length ≤ (inst.outvals.map dd.2.2.app).length := by
+        rw [List.length_map, hinst]
+        simp only [instantiate, length_fwdOuts]; exact hlen
+      -- the values that replace the outputs of the call
+      have hval : ∀ w ∈ inst.outvals, dd.2.2.app w < dd.1.next ∧
+          (dd.2.2.app w ∈ (substIns σ ins).filterMap id ∨ st.next ≤ dd.2.2.app w) := by
+        intro w hw
+        rcases Subst.app_cases dd.2.2 w with h | ⟨q, hq, _, h2⟩
+        · rw [h]; exact ⟨Nat.lt_of_lt_of_le (is4 w hw).1 d2, (is4 w hw).2⟩
+        · rw [← h2]; exact ⟨(d3 q hq).2.2.1, (d3 q hq).2.2.2⟩
       -- the original step
       have hΦ := ht.den op f hff
       have horig : evalNF I Φ α (.mk op attrs ins nouts bodies) ρo =
-          ρo.bind nouts ((instantiate f attrs (substIns σ ins) st.next).outvals.map
-            (fun w => evalNodesF I Φ α (instantiate f attrs (substIns σ ins) st.next).nodes ρi w)) := by
+          ρo.bind nouts ((inst.outvals.map dd.2.2.app).map (fun w => evalNodesF I Φ α dd.2.1 ρi w)) := by
         simp only [evalNF, hΦ]
-        rw [hargs, is1]
+        rw [hargs, is1, List.map_map]
+        congr 1
+        apply List.map_congr_left
+        intro w hw
+        exact d1 w (is4 w hw).1
+      have hlow : ∀ u, u < st.next → dd.2.2.app u = u := fun u hu =>
+        Subst.app_of_not_key (fun q hq h => absurd hu (Nat.not_lt.2 (h ▸ (d3 q hq).1)))
       -- invariants for the rest
-      have hrel1 : RelN N (nouts.zip (instantiate f attrs (substIns σ ins) st.next).outvals ++ σ)
-          (evalNF I Φ α (.mk op attrs ins nouts bodies) ρo)
-          (evalNodesF I Φ α (instantiate f attrs (substIns σ ins) st.next).nodes ρi) := by
+      have hrel1 : RelN N (nouts.zip (inst.outvals.map dd.2.2.app) ++ σ)
+          (evalNF I Φ α (.mk op attrs ins nouts bodies) ρo) (evalNodesF I Φ α dd.2.1 ρi) := by
         intro v hvN
         rw [horig, Subst.app_append']
         by_cases hv : v ∈ nouts
         · have hi := List.idxOf_lt_length_of_mem hv
           rw [lookup_zip_mem nouts _ v hv hlen', Env.bind_of_mem _ _ hv]
-          have hi' : nouts.idxOf v < (instantiate f attrs (substIns σ ins) st.next).outvals.length :=
-            Nat.lt_of_lt_of_le hi hlen'
+          have hi' : nouts.idxOf v < inst.outvals.length := by
+            have := Nat.lt_of_lt_of_le hi hlen'
+            rwa [List.length_map] at this
           simp [List.getElem?_eq_getElem hi']
         · rw [lookup_zip_not_mem nouts _ v hv, Env.bind_of_not_mem _ _ hv]
           simp only
           rw [hrel v hvN]
-          refine (is2 _ ?_).symm
-          rcases Subst.app_cases σ v with h | ⟨p, hp, _, h2⟩
-          · rw [h]; exact Nat.lt_of_lt_of_le hvN hN
-          · rw [← h2]; exact hrg p hp
-      have hok1 : SubstOK (nouts.zip (instantiate f attrs (substIns σ ins) st.next).outvals ++ σ)
-          (defsNodes (eraseNodes ns)) := by
+          have hlt : σ.app v < st.next := by
+            rcases Subst.app_cases σ v with h | ⟨p, hp, _, h2⟩
+            · rw [h]; exact Nat.lt_of_lt_of_le hvN hN
+            · rw [← h2]; exact hrg p hp
+          rw [← is2 _ hlt, d1 _ (Nat.lt_of_lt_of_le hlt is3), hlow _ hlt]
+      have hok1 : SubstOK (nouts.zip (inst.outvals.map dd.2.2.app) ++ σ) (defsNodes (eraseNodes ns)) := by
         intro p hp
         rcases List.mem_append.1 hp with hp | hp
         · have h1 := (List.of_mem_zip hp).1
           have h2 := (List.of_mem_zip hp).2
           refine ⟨fun h => hdn p.1 (by simp only [defsN, List.mem_append]; exact Or.inl h1) h, fun h => ?_⟩
-          rcases (is4 p.2 h2).2 with h3 | h3
-          · simp only [substIns, List.mem_filterMap, List.mem_map, id] at h3
-            obtain ⟨o, ⟨o0, ho0, rfl⟩, ho⟩ := h3
-            cases o0 with
-            | none => simp at ho
-            | some v0 =>
-              simp only [Option.map_some, Option.some.injEq] at ho
-              have hv0 : v0 ∉ defsNodes (eraseNodes ns) := fun h' =>
-                hfw v0 (by simp [List.mem_filterMap]; exact ho0)
-                  (by simp only [defsNodes, defsN, List.mem_append]; exact Or.inr h')
-              exact hokn.app_not_mem hv0 (ho ▸ h)
-          · exact absurd (hdf p.2 (Or.inr h)) (Nat.not_lt.2 (Nat.le_trans hN h3))
+          obtain ⟨w, hw, hw2⟩ := List.mem_map.1 h2
+          rw [← hw2] at h
+          rcases (hval w hw).2 with h3 | h3
+          · exact hcin _ h3 h
+          · exact absurd (hdf _ (Or.inr h)) (Nat.not_lt.2 (Nat.le_trans hN h3))
         · exact hokn p hp
       have hmapeq : (outs0.map σ.app).map (fun o =>
-            ((nouts.zip (instantiate f attrs (substIns σ ins) st.next).outvals).lookup o).getD o) =
-          outs0.map (Subst.app (nouts.zip (instantiate f attrs (substIns σ ins) st.next).outvals ++ σ)) := by
+            ((nouts.zip (inst.outvals.map dd.2.2.app)).lookup o).getD o) =
+          outs0.map (Subst.app (nouts.zip (inst.outvals.map dd.2.2.app) ++ σ)) := by
         rw [List.map_map]
         apply List.map_congr_left
         intro o _
         simp only [Function.comp, Subst.app_append']
         by_cases ho : o ∈ nouts
         · rw [hoko.app_of_mem ho]
-          cases (nouts.zip (instantiate f attrs (substIns σ ins) st.next).outvals).lookup o <;> rfl
+          cases (nouts.zip (inst.outvals.map dd.2.2.app)).lookup o <;> rfl
         · have h1 : σ.app o ∉ nouts := hoko.app_not_mem ho
           rw [lookup_zip_not_mem nouts _ _ h1, lookup_zip_not_mem nouts _ _ ho]
           rfl
       rw [hmapeq]
-      have hN1 : N ≤ (deeper (st.addInlined op (instantiate f attrs (substIns σ ins) st.next).next)
-          (instantiate f attrs (substIns σ ins) st.next).nodes).1.next := by
-        rw [hd2]; exact Nat.le_trans hN is3
-      have hrg1 : ∀ p ∈ nouts.zip (instantiate f attrs (substIns σ ins) st.next).outvals ++ σ,
-          p.2 < (deeper (st.addInlined op (instantiate f attrs (substIns σ ins) st.next).next)
-          (instantiate f attrs (substIns σ ins) st.next).nodes).1.next := by
+      have hN1 : N ≤ dd.1.next := Nat.le_trans hN (Nat.le_trans is3 d2)
+      have hrg1 : ∀ p ∈ nouts.zip (inst.outvals.map dd.2.2.app) ++ σ, p.2 < dd.1.next := by
         intro p hp
-        rw [hd2]
         rcases List.mem_append.1 hp with hp | hp
-        · exact (is4 p.2 (List.of_mem_zip hp).2).1
-        · exact Nat.lt_of_lt_of_le (hrg p hp) is3
-      obtain ⟨k1, k2, k3, k4⟩ := inlNodes_sound ht hd ns _ outs0 _ _ _ hrel1 hok1 hsn hc.2 hfn
+        · obtain ⟨w, hw, hw2⟩ := List.mem_map.1 (List.of_mem_zip hp).2
+          rw [← hw2]; exact (hval w hw).1
+        · exact Nat.lt_of_lt_of_le (hrg p hp) (Nat.le_trans is3 d2)
+      obtain ⟨k1, k2, k3, k4, k5⟩ := inlNodes_sound ht hd ns _ outs0 _ _ _ hrel1 hok1 hsn hc.2 hfn
         (fun v hv => hr v (Or.inr hv)) (fun v hv => hdf v (Or.inr hv)) hN1 hrg1 hco.2
       simp only [evalNodesF, evalNodesF_append]
-      refine ⟨k1, k2, ?_, k4⟩
-      refine Nat.le_trans ?_ k3
-      rw [hd2]; exact is3
+      refine ⟨k1, k2, Nat.le_trans (Nat.le_trans is3 d2) k3, k4, ?_⟩
+      -- where the replacements come from
+      have hpair : ∀ p ∈ nouts.zip (inst.outvals.map dd.2.2.app), p.1 ∈ nouts ∧
+          (st.next ≤ p.2 ∨ ∃ v ∈ ins.filterMap id, p.2 = σ.app v) := by
+        intro p hp
+        refine ⟨(List.of_mem_zip hp).1, ?_⟩
+        obtain ⟨w, hw, hw2⟩ := List.mem_map.1 (List.of_mem_zip hp).2
+        rw [← hw2]
+        rcases (hval w hw).2 with h3 | h3
+        · exact Or.inr (mem_substIns h3)
+        · exact Or.inl h3
+      intro p hp
+      rcases k5 p hp with h | ⟨h1, h2⟩
+      · rcases List.mem_append.1 h with h | h
+        · obtain ⟨a, b⟩ := hpair p h
+          refine Or.inr ⟨by simp only [eraseNodes_cons, eraseN, defsNodes, defsN, List.mem_append]; exact Or.inl (Or.inl a), ?_⟩
+          rcases b with b | ⟨v, hv, b⟩
+          · exact Or.inl b
+          · exact Or.inr ⟨v, by simp only [eraseNodes_cons, eraseN, refsNodes, refsN, List.mem_append]; exact Or.inl (Or.inl hv), b⟩
+        · exact Or.inl h
+      · refine Or.inr ⟨by simp only [eraseNodes_cons, defsNodes, List.mem_append]; exact Or.inr h1, ?_⟩
+        rcases h2 with h2 | ⟨v, hv, h2⟩
+        · exact Or.inl (Nat.le_trans (Nat.le_trans is3 d2) h2)
+        · rw [Subst.app_append'] at h2
+          cases hl : (nouts.zip (inst.outvals.map dd.2.2.app)).lookup v with
+          | none =>
+            rw [hl] at h2
+            exact Or.inr ⟨v, by simp only [eraseNodes_cons, refsNodes, List.mem_append]; exact Or.inr hv, h2⟩
+          | some u =>
+            rw [hl] at h2
+            simp only at h2
+            have hmem : (v, u) ∈ nouts.zip (inst.outvals.map dd.2.2.app) := mem_of_lookup_vid hl
+            obtain ⟨_, b⟩ := hpair (v, u) hmem
+            rw [h2]
+            rcases b with b | ⟨v', hv', b⟩
+            · exact Or.inl b
+            · exact Or.inr ⟨v', by simp only [eraseNodes_cons, eraseN, refsNodes, refsN, List.mem_append]; exact Or.inl (Or.inl hv'), b⟩
     · -- the node is kept
       have hb := inlBodies_sound ht hd bodies σ st ρo ρi hrel hokb hsb hc.1 hfb
         (fun v hv => hr v (Or.inl (Or.inr hv))) (fun v hv => hdf v (Or.inl (Or.inr hv))) hN hrg hco.1.2
@@ -281,12 +353,19 @@ theorem inlNodes_sound (ht : TblOK I Φ tbl) (hd : DeepId tbl crit deeper) :
         simp only [evalNF]
         rw [hargs, hb.1]
         exact RelN.bind hrel hoko _
-      obtain ⟨k1, k2, k3, k4⟩ := inlNodes_sound ht hd ns σ outs0 (inlBodies tbl crit deeper st σ bodies).1 _ _ keep hokn
+      obtain ⟨k1, k2, k3, k4, k5⟩ := inlNodes_sound ht hd ns σ outs0 (inlBodies tbl crit deeper st σ bodies).1 _ _ keep hokn
         hsn hc.2 hfn (fun v hv => hr v (Or.inr hv)) (fun v hv => hdf v (Or.inr hv)) (Nat.le_trans hN hb.2)
         (fun p hp => Nat.lt_of_lt_of_le (hrg p hp) hb.2) hco.2
       simp only [evalNodesF]
-      exact ⟨k1, k2, Nat.le_trans hb.2 k3, k4⟩
-theorem inlBodies_sound (ht : TblOK I Φ tbl) (hd : DeepId tbl crit deeper) :
+      refine ⟨k1, k2, Nat.le_trans hb.2 k3, k4, ?_⟩
+      intro p hp
+      rcases k5 p hp with h | ⟨h1, h2⟩
+      · exact Or.inl h
+      · refine Or.inr ⟨by simp only [eraseNodes_cons, defsNodes, List.mem_append]; exact Or.inr h1, ?_⟩
+        rcases h2 with h2 | ⟨v, hv, h2⟩
+        · exact Or.inl (Nat.le_trans hb.2 h2)
+        · exact Or.inr ⟨v, by simp only [eraseNodes_cons, refsNodes, List.mem_append]; exact Or.inr hv, h2⟩
+theorem inlBodies_sound (ht : TblOK I Φ tbl) (hd : DeepOK I Φ α tbl deeper) :
     ∀ (bs : List FGraph) (σ : Subst) (st : ISt) (ρo ρi : Env Val),
     RelN N σ ρo ρi → SubstOK σ (defsBodies (eraseBodies bs)) → ssaBodies (eraseBodies bs) = true →
     closedBodies (eraseBodies bs) = true → noFwdBodies (eraseBodies bs) = true →
